@@ -29,17 +29,79 @@ type loopEvent struct {
 	held  []string
 }
 
+// an enclosing if-condition, rendered only when an event is emitted under it (so that conditions
+// without events do not take part in the numbering of locals)
+type loopCond struct {
+	init ast.Stmt
+	cond ast.Expr
+	neg  bool
+}
+
 type loopWalker struct {
 	r      *Repo
 	fn     string
 	events []loopEvent
 	held   map[string]bool
-	conds  []string
+	conds  []loopCond
+	calls  []string // full text of every statement that contains an event call, in order
+	// alpha-normalisation of local identifiers (scope = one function declaration)
+	scope *ast.FuncDecl
+	names map[*ast.Object]string
+	next  int
+}
+
+// enter makes fd the scope for printing: its receiver prints as "cs" (methods of connState) or "t",
+// every other local (parameter, named result, :=, var, range variable, closure parameter) as v0, v1, ...
+// in the order in which they first appear in the emitted text.  Renaming a local therefore leaves
+// the emitted tables unchanged; only a change of structure or order alters them.
+func (w *loopWalker) enter(fd *ast.FuncDecl) {
+	w.scope = fd
+	w.names = map[*ast.Object]string{}
+	w.next = 0
+	if fd.Recv != nil && len(fd.Recv.List) == 1 && len(fd.Recv.List[0].Names) == 1 {
+		id := fd.Recv.List[0].Names[0]
+		if id.Obj != nil {
+			if recvTypeName(fd.Recv.List[0].Type) == "connState" {
+				w.names[id.Obj] = "cs"
+			} else {
+				w.names[id.Obj] = "t"
+			}
+		}
+	}
+}
+
+func (w *loopWalker) isLocal(id *ast.Ident) bool {
+	if id.Obj == nil || id.Obj.Kind != ast.Var || w.scope == nil {
+		return false
+	}
+	d, ok := id.Obj.Decl.(ast.Node)
+	return ok && d.Pos() >= w.scope.Pos() && d.Pos() <= w.scope.End()
 }
 
 func (w *loopWalker) src(n ast.Node) string {
+	type saved struct {
+		id   *ast.Ident
+		name string
+	}
+	var undo []saved
+	ast.Inspect(n, func(x ast.Node) bool {
+		if id, ok := x.(*ast.Ident); ok && w.isLocal(id) {
+			nm, ok := w.names[id.Obj]
+			if !ok {
+				nm = fmt.Sprintf("v%d", w.next)
+				w.next++
+				w.names[id.Obj] = nm
+			}
+			undo = append(undo, saved{id, id.Name})
+			id.Name = nm
+		}
+		return true
+	})
 	var b bytes.Buffer
 	printer.Fprint(&b, w.r.Fset, n)
+	for _, u := range undo {
+		u.id.Name = u.name
+	}
 	return strings.Join(strings.Fields(b.String()), " ")
 }
 
@@ -54,8 +116,35 @@ func (w *loopWalker) heldList() []string {
 	return l
 }
 
+func (w *loopWalker) condText(c loopCond) string {
+	t := w.src(c.cond)
+	if c.init != nil {
+		t = w.src(c.init) + "; " + t
+	}
+	if c.neg {
+		t = "!(" + t + ")"
+	}
+	return t
+}
+
 func (w *loopWalker) emit(name string) {
-	w.events = append(w.events, loopEvent{name: name, conds: append([]string(nil), w.conds...), held: w.heldList()})
+	var cs []string
+	for _, c := range w.conds {
+		cs = append(cs, w.condText(c))
+	}
+	w.events = append(w.events, loopEvent{name: name, conds: cs, held: w.heldList()})
+}
+
+// peek renders a node without letting it take part in the numbering of locals (used to recognise calls)
+func (w *loopWalker) peek(n ast.Node) string {
+	saved, next := w.names, w.next
+	w.names = map[*ast.Object]string{}
+	for k, v := range saved {
+		w.names[k] = v
+	}
+	t := w.src(n)
+	w.names, w.next = saved, next
+	return t
 }
 
 // calls that are irrelevant to the model (bookkeeping, logging, pure constructors)
@@ -71,6 +160,8 @@ var loopEvents = map[string]string{
 	"cs.ClearTag": "ClearTag", "send": "send", "msgDotLRegistry.put": "put",
 }
 
+var loopEventNames = map[string]bool{"recv": true, "StartTag": true, "TagDone": true, "handle": true, "ClearTag": true, "send": true, "put": true}
+
 func (w *loopWalker) call(c *ast.CallExpr) error {
 	// arguments first (evaluation order)
 	for _, a := range c.Args {
@@ -78,9 +169,9 @@ func (w *loopWalker) call(c *ast.CallExpr) error {
 			return err
 		}
 	}
-	name := w.src(c.Fun)
+	name := w.peek(c.Fun)
 	if sel, ok := c.Fun.(*ast.SelectorExpr); ok && (sel.Sel.Name == "Lock" || sel.Sel.Name == "Unlock") {
-		mu := w.src(sel.X)
+		mu := w.peek(sel.X)
 		if !strings.HasPrefix(mu, "cs.") {
 			return w.r.Refuse(c.Pos(), "%s: lock operation on %s", w.fn, mu)
 		}
@@ -179,6 +270,18 @@ func (w *loopWalker) block(b *ast.BlockStmt) error {
 }
 
 func (w *loopWalker) stmt(s ast.Stmt) error {
+	switch s.(type) {
+	case *ast.ExprStmt, *ast.AssignStmt:
+		n := len(w.events)
+		defer func() {
+			for _, e := range w.events[n:] {
+				if _, isEv := loopEventNames[e.name]; isEv {
+					w.calls = append(w.calls, w.src(s))
+					break
+				}
+			}
+		}()
+	}
 	switch v := s.(type) {
 	case *ast.ExprStmt:
 		return w.expr(v.X)
@@ -192,13 +295,13 @@ func (w *loopWalker) stmt(s ast.Stmt) error {
 			if sel, ok := l.(*ast.SelectorExpr); ok && sel.Sel.Name == "wait" {
 				w.emit("set-wait:" + w.src(v.Rhs[0]))
 			}
-			if w.src(l) == "cs.recvShutdown" {
+			if w.peek(l) == "cs.recvShutdown" {
 				w.emit("set-shutdown:" + w.src(v.Rhs[0]))
 			}
 		}
 		return nil
 	case *ast.DeferStmt:
-		if n := w.src(v.Call.Fun); !loopIgnored[n] {
+		if n := w.peek(v.Call.Fun); !loopIgnored[n] {
 			return w.r.Refuse(v.Pos(), "%s: defer %s", w.fn, n)
 		}
 		return nil
@@ -212,7 +315,7 @@ func (w *loopWalker) stmt(s ast.Stmt) error {
 		var bad ast.Node
 		ast.Inspect(fl.Body, func(n ast.Node) bool {
 			if c, ok := n.(*ast.CallExpr); ok {
-				nm := w.src(c.Fun)
+				nm := w.peek(c.Fun)
 				if nm == "cs.handleRequests" {
 					calls++
 				} else if !loopIgnored[nm] {
@@ -244,11 +347,8 @@ func (w *loopWalker) stmt(s ast.Stmt) error {
 			return err
 		}
 		before := copyHeld(w.held)
-		cond := w.src(v.Cond)
-		if v.Init != nil {
-			cond = w.src(v.Init) + "; " + cond
-		}
-		w.conds = append(w.conds, cond)
+		cond := w.peek(v.Cond)
+		w.conds = append(w.conds, loopCond{init: v.Init, cond: v.Cond})
 		if err := w.block(v.Body); err != nil {
 			return err
 		}
@@ -258,7 +358,7 @@ func (w *loopWalker) stmt(s ast.Stmt) error {
 		}
 		w.held = copyHeld(before)
 		if v.Else != nil {
-			w.conds = append(w.conds, "!("+cond+")")
+			w.conds = append(w.conds, loopCond{init: v.Init, cond: v.Cond, neg: true})
 			var err error
 			var ret bool
 			switch e := v.Else.(type) {
@@ -311,6 +411,7 @@ func genLoop(r *Repo) (string, error) {
 		return "", fmt.Errorf("p9/server.go: connState.handleRequest not found")
 	}
 	w := &loopWalker{r: r, fn: "handleRequest", held: map[string]bool{}}
+	w.enter(hr)
 	if err := w.block(hr.Body); err != nil {
 		return "", err
 	}
@@ -329,6 +430,7 @@ func genLoop(r *Repo) (string, error) {
 		fmt.Fprintf(&b, "  (%s, %s, %s)%s\n", CoqString(e.name), coqStrList(e.conds), coqStrList(e.held), sep)
 	}
 	b.WriteString("].\n\n")
+	fmt.Fprintf(&b, "(* the statements of handleRequest that contain those calls, locals numbered in order of appearance: shows WHICH tag / message / reply each call gets *)\nDefinition handleRequest_calls : list string := %s.\n\n", coqStrList(w.calls))
 
 	// every call of send( and every assignment to .wait in the server-side files, outside handleRequest
 	files, err := r.Files("p9")
@@ -381,15 +483,31 @@ func genLoop(r *Repo) (string, error) {
 			return "", fmt.Errorf("p9: %s not found", k)
 		}
 		id := strings.ReplaceAll(k, ".", "_")
+		w.enter(fd)
 		fmt.Fprintf(&b, "Definition body_%s : list string := %s.\n", id, coqStrList(stmtLines(w, fd.Body)))
 	}
-	// goroutines started by the server-side files, and the state the loop functions touch
-	var goSites []string
-	for _, fn := range []string{"server.go", "handlers.go", "path_tree.go"} {
-		f := files[fn]
-		if f == nil {
+	// every way work could be detached from the goroutine of a handler, in EVERY non-test file of package p9:
+	// go statements, timers (time.AfterFunc / NewTimer / NewTicker / After), channel sends (hand-off to a worker)
+	var goSites, timerSites, chanSendSites []string
+	type srcFile struct {
+		name string
+		f    *ast.File
+	}
+	var all []srcFile
+	for _, fn := range SortedNames(files) {
+		all = append(all, srcFile{fn, files[fn]})
+	}
+	for _, dir := range []string{"internal", "linux", "vecnet"} { // the packages of this module that p9 imports
+		fs, err := r.Files(dir)
+		if err != nil {
 			continue
 		}
+		for _, fn := range SortedNames(fs) {
+			all = append(all, srcFile{dir + "/" + fn, fs[fn]})
+		}
+	}
+	for _, sf := range all {
+		fn, f := sf.name, sf.f
 		for _, d := range f.Decls {
 			fd, ok := d.(*ast.FuncDecl)
 			if !ok || fd.Body == nil {
@@ -399,15 +517,30 @@ func genLoop(r *Repo) (string, error) {
 			if fd.Recv != nil && len(fd.Recv.List) == 1 {
 				name = recvTypeName(fd.Recv.List[0].Type) + "." + name
 			}
+			name = fn + ":" + name
 			ast.Inspect(fd.Body, func(n ast.Node) bool {
-				if _, ok := n.(*ast.GoStmt); ok {
+				switch v := n.(type) {
+				case *ast.GoStmt:
 					goSites = append(goSites, name)
+				case *ast.SendStmt:
+					chanSendSites = append(chanSendSites, name)
+				case *ast.CallExpr:
+					if sel, ok := v.Fun.(*ast.SelectorExpr); ok {
+						if id, ok := sel.X.(*ast.Ident); ok && id.Name == "time" {
+							switch sel.Sel.Name {
+							case "AfterFunc", "NewTimer", "NewTicker", "After", "Tick":
+								timerSites = append(timerSites, name)
+							}
+						}
+					}
 				}
 				return true
 			})
 		}
 	}
-	fmt.Fprintf(&b, "(* functions of server.go/handlers.go/path_tree.go containing a go statement *)\nDefinition go_sites : list string := %s.\n\n", coqStrList(goSites))
+	fmt.Fprintf(&b, "(* file:function of every go statement in the non-test files of package p9 *)\nDefinition go_sites : list string := %s.\n", coqStrList(goSites))
+	fmt.Fprintf(&b, "(* ... of every timer (time.AfterFunc/NewTimer/NewTicker/After/Tick) *)\nDefinition timer_sites : list string := %s.\n", coqStrList(timerSites))
+	fmt.Fprintf(&b, "(* ... of every channel send *)\nDefinition chan_send_sites : list string := %s.\n\n", coqStrList(chanSendSites))
 	pkgVars := map[string]bool{}
 	for _, n := range SortedNames(files) {
 		for _, d := range files[n].Decls {
@@ -426,17 +559,22 @@ func genLoop(r *Repo) (string, error) {
 		if fd == nil || fd.Body == nil {
 			return "", fmt.Errorf("p9: %s not found", k)
 		}
+		var recvObj *ast.Object
+		if fd.Recv != nil && len(fd.Recv.List) == 1 && len(fd.Recv.List[0].Names) == 1 {
+			recvObj = fd.Recv.List[0].Names[0].Obj
+		}
+		isRecv := func(id *ast.Ident) bool { return recvObj != nil && id.Obj == recvObj }
 		ast.Inspect(fd.Body, func(n ast.Node) bool {
 			switch v := n.(type) {
 			case *ast.SelectorExpr:
 				// cs.X  or cs.server.X
-				if id, ok := v.X.(*ast.Ident); ok && id.Name == "cs" {
+				if id, ok := v.X.(*ast.Ident); ok && isRecv(id) {
 					if v.Sel.Name != "server" {
 						touched["cs."+v.Sel.Name] = true
 					}
 				}
 				if in, ok := v.X.(*ast.SelectorExpr); ok {
-					if id, ok := in.X.(*ast.Ident); ok && id.Name == "cs" && in.Sel.Name == "server" {
+					if id, ok := in.X.(*ast.Ident); ok && isRecv(id) && in.Sel.Name == "server" {
 						touched["cs.server."+v.Sel.Name] = true
 					}
 				}
@@ -466,11 +604,31 @@ func genLoop(r *Repo) (string, error) {
 	if sd == nil || sd.Body == nil {
 		return "", fmt.Errorf("p9/transport.go: send not found")
 	}
+	// the io.Writer parameter of send, and the calls of a Write* method that mention it
+	var wobj *ast.Object
+	for _, f := range sd.Type.Params.List {
+		if sel, ok := f.Type.(*ast.SelectorExpr); ok && sel.Sel.Name == "Writer" && len(f.Names) == 1 {
+			wobj = f.Names[0].Obj
+		}
+	}
+	if wobj == nil {
+		return "", r.Refuse(sd.Pos(), "send: no io.Writer parameter")
+	}
+	w.enter(sd)
 	var writes []string
 	ast.Inspect(sd.Body, func(n ast.Node) bool {
 		if c, ok := n.(*ast.CallExpr); ok {
-			if sel, ok := c.Fun.(*ast.SelectorExpr); ok && (strings.HasPrefix(sel.Sel.Name, "Write") && w.src(sel.X) != "headerBuf" || sel.Sel.Name == "WriteTo") {
-				writes = append(writes, w.src(c))
+			if sel, ok := c.Fun.(*ast.SelectorExpr); ok && strings.HasPrefix(sel.Sel.Name, "Write") {
+				uses := false
+				ast.Inspect(c, func(x ast.Node) bool {
+					if id, ok := x.(*ast.Ident); ok && id.Obj == wobj {
+						uses = true
+					}
+					return true
+				})
+				if uses {
+					writes = append(writes, w.src(c))
+				}
 			}
 		}
 		return true
